@@ -7,7 +7,7 @@ from unittest import mock
 from harness.common import cN, cZ, cnat, cbool, clist, cpair, copt, coq_failing, coq_show, Interner, ROOT
 
 IMPORTS = "Model.NetAddr Model.NetBuild Check.C18"
-ERR = {"IndexErr": 1, "TestErr": 2, "ValueErr": 3, "KeyErr": 4, "Exhaust": 5}
+ERR = {"IndexErr": 1, "TestErr": 2, "ValueErr": 3, "KeyErr": 4, "Exhaust": 5, "Other": 9}   # 9: no model outcome (e.g. a failed internal assertion)
 
 
 def dotted(n):
@@ -28,7 +28,7 @@ def classify(e):
         return "KeyErr"
     if isinstance(e, ValueError):
         return "ValueErr"
-    raise e
+    return "Other"      # e.g. AssertionError from VMNetconfig.validate: never a model outcome
 
 
 # ------------------------------------------------------------------ arithmetic (implementation side)
